@@ -694,6 +694,26 @@ func (w *world) exec(op string) (res string) {
 			delete(w.taint, atoi(f[1]))
 		}
 		return w.snapshot()
+	case "flap":
+		// flap <id> <trials> <pickers> <updown|remadd>   (round 2) PICKS CONCURRENT WITH A HOST CHANGE, then a QUIESCENT re-check.
+		// Every trial: a preparing notifier call about host <id> made in a quiet state (HostDown with the state set down /
+		// RemoveHost), then the opposite call (HostUp / AddHost) released together with <pickers> goroutines that each make
+		// ONE Pick (+ one iterator call) after a swept busy delay, so that Picks start before, inside and after the call;
+		// when all have returned: a fresh iterator, drained, must offer exactly what the history expects (w.oracle).
+		// remadd, odd trials: the racing call is RemoveHost (after a quiet RemoveHost + AddHost), re-added afterwards.
+		if len(f) != 5 || w.alias() {
+			return "bad-op"
+		}
+		h, ok := w.hosts[atoi(f[1])]
+		T, K := atoi(f[2]), atoi(f[3])
+		if !ok || T < 1 || T > 100000 || K < 1 || K > 32 || (f[4] != "updown" && f[4] != "remadd") {
+			return "bad-op"
+		}
+		id := atoi(f[1])
+		w.lastPlain = nil
+		w.epoch++
+		w.mutLog = append(w.mutLog, mutRec{w.epoch, id})
+		return w.flap(id, h, T, K, f[4] == "updown")
 	case "kstab":
 		// kstab <ks> none|empty|<tok>:<ids> ...   (w-s11f) the table the policy holds NOW for a NetworkTopologyStrategy keyspace
 		// (the line is generated from the observation; the model adopts it - placement is C10's subject)
@@ -1475,6 +1495,147 @@ func (w *world) exec(op string) (res string) {
 		return "ok"
 	}
 	return "bad-op"
+}
+
+// flap: see op `flap`. The workers are persistent goroutines stepping through the trials by a shared phase counter
+// (spin barriers: event order only); nothing is decided from timing - the verdict is the quiescent drain of every trial.
+func (w *world) flap(id int, h *gocql.HostInfo, T, K int, updown bool) (res string) {
+	var phase, done int32
+	var stop int32
+	nilSeen := int32(0)
+	panicMsg := make([]string, K+1)
+	var wg sync.WaitGroup
+	delays := make([]int32, K)
+	sink := int64(0)
+	for k := 0; k < K; k++ {
+		wg.Add(1)
+		go func(k int) {
+			defer wg.Done()
+			defer func() {
+				if r := recover(); r != nil {
+					panicMsg[k] = fmt.Sprint(r)
+					atomic.StoreInt32(&stop, 1)
+					atomic.AddInt32(&done, 1)
+				}
+			}()
+			next := int32(1)
+			for {
+				for spins := 0; atomic.LoadInt32(&phase) < next; spins++ {
+					if atomic.LoadInt32(&stop) != 0 {
+						return
+					}
+					if spins > 200 {
+						runtime.Gosched()
+					}
+				}
+				x := int64(0)
+				for d := atomic.LoadInt32(&delays[k]); d > 0; d-- {
+					x += int64(d)
+				}
+				atomic.AddInt64(&sink, x)
+				it := w.pol.Pick(nil)
+				if sh := it(); sh != nil && sh.Info() == nil {
+					atomic.StoreInt32(&nilSeen, 1)
+				}
+				atomic.AddInt32(&done, 1)
+				next++
+			}
+		}(k)
+	}
+	finish := func() {
+		atomic.StoreInt32(&stop, 1)
+		wg.Wait()
+	}
+	call := func(ev string) {
+		w.record(ev, id)
+		switch ev {
+		case "add":
+			w.pol.AddHost(h)
+		case "remove":
+			w.pol.RemoveHost(h)
+		case "hup":
+			w.pol.HostUp(h)
+		case "hdown":
+			w.pol.HostDown(h)
+		}
+	}
+	defer func() {
+		if r := recover(); r != nil {
+			finish()
+			w.poisoned = true
+			res = "crash:" + strings.ReplaceAll(fmt.Sprint(r), "\n", " ")
+		}
+	}()
+	for t := 0; t < T; t++ {
+		racing := "hup"
+		if updown {
+			gocql.VerifSetHostUp(h, false)
+			call("hdown")
+			gocql.VerifSetHostUp(h, true)
+		} else if t%2 == 0 {
+			call("remove")
+			racing = "add"
+		} else {
+			call("remove")
+			call("add")
+			racing = "remove"
+		}
+		// the racing call and the Picks, released together; the delays sweep 0 .. ~4 us in steps that differ per picker
+		for k := 0; k < K; k++ {
+			atomic.StoreInt32(&delays[k], int32(((t*K+k)*37)%4000))
+		}
+		atomic.StoreInt32(&done, 0)
+		atomic.AddInt32(&phase, 1)
+		call(racing)
+		for spins := 0; atomic.LoadInt32(&done) < int32(K); spins++ {
+			if atomic.LoadInt32(&stop) != 0 {
+				break
+			}
+			if spins > 200 {
+				runtime.Gosched()
+			}
+		}
+		for k := 0; k < K; k++ {
+			if panicMsg[k] != "" {
+				finish()
+				w.poisoned = true
+				return "crash:" + strings.ReplaceAll(panicMsg[k], "\n", " ")
+			}
+		}
+		if atomic.LoadInt32(&nilSeen) != 0 {
+			finish()
+			return "crash:property violated on the real code: nil host offered by a Pick concurrent with " + racing
+		}
+		// QUIESCENT: every notifier call has returned, every Pick has finished
+		it := w.pol.Pick(nil)
+		var got []*gocql.HostInfo
+		for n := 0; n < 1000; n++ {
+			sh := it()
+			if sh == nil {
+				break
+			}
+			if sh.Info() == nil {
+				finish()
+				return "crash:property violated on the real code: nil host offered"
+			}
+			got = append(got, sh.Info())
+		}
+		if !noOracle {
+			if v := w.oracle(got, 0, false, nil, true); v != "" {
+				finish()
+				return fmt.Sprintf("crash:property violated on the real code: quiescent state after trial %d (%d Picks concurrent with %s of host %d; all calls returned, all Picks finished): %s offered=%s",
+					t, K, racing, id, v, w.showIDs(got))
+			}
+		}
+		if racing == "remove" {
+			call("add")
+		}
+	}
+	finish()
+	if w.isTA {
+		w.specRefreshAll()
+	}
+	return "ok"
 }
 
 // parkedInGocql: the number of goroutines that are blocked on a lock (sync.Mutex / sync.RWMutex) with a gocql frame
@@ -2868,6 +3029,44 @@ func (g *gen) ntsScenario(idx int) {
 	}
 }
 
+// flapScenario (family 8, round 2; thorough: 60 policies x 3 ops x 2000 trials, "a node flaps while queries are being routed"): every policy kind rr | dc | rack, bare
+// and (every other one) as fallback of a token-aware policy, 6..24 hosts over the tiers, all added; 3 `flap` ops on hosts
+// of different tiers, modes updown (HostDown with the state set down, then HostUp - what the session does) and remadd
+// (RemoveHost / AddHost, odd trials race the RemoveHost): per op <trials> trials of a quiet preparing call, then the
+// opposite call released TOGETHER with 3..8 goroutines that each make one Pick after a swept busy delay (Picks start
+// before, inside and after the call), then - all calls returned, all Picks finished - a fresh iterator drained against the
+// history (no up host missing, no removed host offered, no nil host, no panic). The interleaving is the scheduler's; the
+// verdict is only ever taken in the quiescent state. Followed by the sequential `offer`.
+func (g *gen) flapScenario(idx, trials int) {
+	r := g.r
+	g.kind = []string{"rack", "dc", "rr"}[idx%3]
+	g.ta = idx%2 == 1
+	g.nonlocal = false
+	g.ldc, g.lrack = 0, 0
+	g.sess = -1
+	g.emit(fmt.Sprintf("reset %s %s 0 0 0 0 1", g.kind, b01(g.ta)), "reset/"+g.kind+"/ta"+b01(g.ta), false)
+	g.n = 6 + r.Intn(19)
+	for id := 1; id <= g.n; id++ {
+		dc, rack := 0, 0
+		if id%3 == 0 {
+			dc = 1
+		} else if id%3 == 1 {
+			rack = 1
+		}
+		g.emit(fmt.Sprintf("host %d %d %d %d %d", id, id, dc, rack, id*10), "host", false)
+	}
+	for id := 1; id <= g.n; id++ {
+		g.emit(fmt.Sprintf("add %d", id), "add", true)
+	}
+	cls := "/" + g.kind + "/ta" + b01(g.ta)
+	for k := 0; k < 3; k++ {
+		id := 1 + (r.Intn(g.n/3)*3+k)%g.n // a host of another tier each time
+		mode := []string{"updown", "remadd"}[(idx+k)%2]
+		g.emit(fmt.Sprintf("flap %d %d %d %s", id, trials, 3+r.Intn(6), mode), "flap"+cls+"/"+mode, true)
+		g.pickWith("-", "-", 1000, true)
+	}
+}
+
 // rngPerm: a permutation of 0..n-1 from the harness' own generator
 func rngPerm(r *vh.Rng, n int) []int {
 	p := make([]int, n)
@@ -3834,6 +4033,14 @@ func main() {
 	}
 	for i := 0; i < nnt; i++ {
 		g.ntsScenario(i)
+	}
+	// (round 2) FLAP family: Picks concurrent with host changes, quiescent re-check after every trial
+	nfl, ntr := 24, 1000
+	if tier == "thorough" {
+		nfl, ntr = 60, 2000
+	}
+	for i := 0; i < nfl; i++ {
+		g.flapScenario(i, ntr)
 	}
 	extra := map[string]interface{}{}
 	if tier == "thorough" {
